@@ -14,8 +14,14 @@ EXPLANATION = (
     "truthiness of the term; (d) a term handed to the SAX writer's characters() (which skips falsy content) is passed "
     "as str(...); (e) the exchange-format writers enumerate rows through Result.bindings (which keeps rows in which "
     "nothing is bound), not by iterating the Result; (f) the line-oriented readers never split records with "
-    "str.splitlines(), which also splits on characters that are legal inside literals. TSV grammar, CSV quoting and "
-    "control characters are value-level and not decided."
+    "str.splitlines(), which also splits on characters that are legal inside literals; (n) a reader adds every record to "
+    ".bindings independently of what the row binds, and skips an empty line only when the table does not have exactly one "
+    "variable; (o) signed numeric terminals build the literal from the lexical form (no unary operator on a Literal); (p) "
+    "no codecs stream reader under a line-wise consumer; (q) the string terminals accept after a backslash exactly the "
+    "decoder's escape table; (r) text reaches a grammar element containing a string terminal only through a codepoint-"
+    "escape expander; (s) presence of an IRI is decided by identity and URIRef() never receives None; (t) the CSV reader "
+    "strips the marker the CSV writer puts before a blank node label. The remaining TSV grammar, CSV quoting and control "
+    "characters are value-level and not decided."
 )
 
 TERM_CLASSES = ("URIRef", "BNode", "Literal")
@@ -405,3 +411,566 @@ def run(repo: Repo, rep: Report) -> None:  # noqa: F811
                        "recorded first" if ok else "the row is appended after it was yielded: `next(iter(result))` followed by result.serialize() loses the first row", node=b[ia])
     if pairs == 0:
         raise AnalysisError("Result.__iter__: recording of drained rows not found")
+
+
+# =====================================================================================================================
+# rules n..t: structural conditions behind the defects F76-F82 (each was found on the pinned tree and repaired there)
+
+_run_base3 = run
+
+RESULT_READERS = ("jsonresults", "xmlresults", "csvresults", "tsvresults")
+RESULTS_PKG = "rdflib.plugins.sparql.results."
+GRAMMAR = "rdflib.plugins.sparql.parser"
+
+
+def run(repo: Repo, rep: Report) -> None:  # noqa: F811
+    _run_base3(repo, rep)
+    rule_n_reader_keeps_every_row(repo, rep)
+    rule_o_signed_numbers_from_lexical_form(repo, rep)
+    rule_p_no_codecs_reader_under_line_consumer(repo, rep)
+    terminals = rule_q_string_terminals_accept_what_is_decoded(repo, rep)
+    rule_r_codepoint_escapes_expanded_before_grammar(repo, rep, terminals)
+    rule_s_iri_presence_by_identity(repo, rep)
+    rule_t_csv_marker_stripped(repo, rep)
+
+
+# ---------------------------------------------------------------------------------------------------------------- (n)
+def rule_n_reader_keeps_every_row(repo: Repo, rep: Report) -> None:
+    """F76.  A reader's row loop appends every record to .bindings: the append does not depend on what the row binds, and a
+    line reader skips an empty record only when the table does not have exactly one variable."""
+    from vlib import h_c16 as H
+
+    RULE = "C16.n-reader-keeps-every-row"
+    rep.rule(RULE,
+             "in every result reader the statement that adds a row to .bindings is not control-dependent on the content of that row (no `if row:` / `if len(row) > 0` "
+             "around it, no `continue` on it before it, no filter in a comprehension): a row that binds nothing is a row (SELECT ?x WHERE { OPTIONAL {..} } -> the "
+             "row count must survive). A line-oriented reader that skips an empty record does so under a test that also looks at the number of variables: with "
+             "exactly one variable the empty line IS the row that leaves it unbound ('?x\\n\\n<a>\\n' has two rows)", floor=5)
+    for short in RESULT_READERS:
+        mod = repo.mod(RESULTS_PKG + short)
+        # functions whose return value is stored into <x>.bindings (JSONResult._get_bindings)
+        feeders = set()
+        for n in ast.walk(mod.tree):
+            if isinstance(n, ast.Assign) and any(isinstance(t, ast.Attribute) and t.attr == "bindings" for t in n.targets) and isinstance(n.value, ast.Call):
+                feeders.add(norm(n.value.func).split(".")[-1])
+            # comprehension form: <x>.bindings = [row for ... if <test on the row>]
+            if isinstance(n, ast.Assign) and any(isinstance(t, ast.Attribute) and t.attr == "bindings" for t in n.targets) and isinstance(n.value, (ast.ListComp, ast.GeneratorExp)):
+                elt_names = H.names_in(n.value.elt)
+                gens_bound = set()
+                for g in n.value.generators:
+                    gens_bound |= H.bound_in(g.target)
+                bad = [t for g in n.value.generators for t in g.ifs if H.names_in(t) & elt_names & gens_bound]
+                rep.ob(RULE, mod, mod.qual_of(n) or "<module>", n.value, not bad, "every record becomes a row" if not bad else
+                       "rows are filtered by `%s`: a row in which nothing is bound is dropped" % norm(bad[0])[:60], node=n)
+        for q, f in mod.functions():
+            returned = {r.value.id for r in own_nodes(f) if isinstance(r, ast.Return) and isinstance(r.value, ast.Name)}
+            for c in own_nodes(f):
+                if not (isinstance(c, ast.Call) and isinstance(c.func, ast.Attribute) and c.func.attr == "append" and len(c.args) == 1):
+                    continue
+                recv = c.func.value
+                is_rows = (isinstance(recv, ast.Attribute) and recv.attr == "bindings") or (
+                    isinstance(recv, ast.Name) and recv.id in returned and f.name in feeders)
+                if not is_rows:
+                    continue
+                loop = H.innermost_loop(mod, c, f)
+                if loop is None:
+                    continue
+                rep.analysed("%s:%s" % (mod.rel, q))
+                variant = H.bound_in(loop)
+                row_names = H.derived_names(loop, H.names_in(c.args[0]) & variant)
+                bad = [t for t in H.guard_tests(mod, c, loop) if H.names_in(t) & row_names]
+                jumps = [s for s in ast.walk(loop) if isinstance(s, (ast.Continue, ast.Break)) and H.innermost_loop(mod, s, f) is loop]
+                for s in jumps:
+                    bad += [t for t in H.guard_tests(mod, s, loop) if H.names_in(t) & row_names]
+                rep.ob(RULE, mod, q, c, not bad, "unconditional in the row loop" if not bad else
+                       "the row is added only under `%s`: a row in which no variable is bound is dropped by the reader" % norm(bad[0])[:80], node=c)
+                # skipped empty records
+                for s in jumps:
+                    if not isinstance(s, ast.Continue):
+                        continue
+                    tests = H.guard_tests(mod, s, loop)
+                    empt = []
+                    for t in tests:
+                        for leaf in truthy.tested_exprs(t):
+                            if isinstance(leaf, ast.Compare) and len(leaf.ops) == 1 and isinstance(leaf.ops[0], (ast.Eq, ast.NotEq)):
+                                sides = [leaf.left, leaf.comparators[0]]
+                                if any(isinstance(x, ast.Constant) and x.value in ("", b"") for x in sides) and any(H.names_in(x) & variant for x in sides):
+                                    empt.append(leaf)
+                            elif isinstance(leaf, ast.Name) and leaf.id in variant and leaf.id not in row_names:
+                                # `if not line: continue` - a record name, i.e. one that (transitively) feeds the appended row
+                                if leaf.id in _feeds(loop, row_names | H.names_in(c.args[0])):
+                                    empt.append(leaf)
+                    if not empt:
+                        continue
+                    var_count_names = {t.id for a in own_nodes(f) if isinstance(a, ast.Assign) and any(isinstance(x, ast.Attribute) and x.attr == "vars" for x in ast.walk(a.value))
+                                       for t in a.targets if isinstance(t, ast.Name)}
+                    looks = any((isinstance(x, ast.Attribute) and x.attr == "vars") or (isinstance(x, ast.Name) and x.id in var_count_names) for t in tests for x in ast.walk(t))
+                    rep.ob(RULE, mod, q, "skip of an empty record: if %s: continue" % " / ".join(norm(t) for t in tests)[:120], looks,
+                           "only when the table does not have exactly one variable" if looks else
+                           "an empty record is skipped whatever the number of variables: in a one-variable table the empty line is the row that leaves the variable unbound, it is lost", node=s)
+
+
+def _feeds(loop: ast.AST, sinks: set) -> set:
+    """names bound in loop from which (through assignments inside loop) one of sinks is computed"""
+    out = set(sinks)
+    changed = True
+    while changed:
+        changed = False
+        for n in ast.walk(loop):
+            tg, val = None, None
+            if isinstance(n, ast.Assign):
+                tg, val = n.targets, n.value
+            elif isinstance(n, (ast.For, ast.comprehension)):
+                tg, val = [n.target], n.iter
+            if tg is None:
+                continue
+            tnames = {x.id for t in tg for x in ast.walk(t) if isinstance(x, ast.Name)}
+            if tnames & out:
+                for x in ast.walk(val):
+                    if isinstance(x, ast.Name) and x.id not in out:
+                        out.add(x.id)
+                        changed = True
+    return out
+
+
+# ---------------------------------------------------------------------------------------------------------------- (o)
+def rule_o_signed_numbers_from_lexical_form(repo: Repo, rep: Report) -> None:
+    """F77.  The token a signed numeric terminal hands to its parse action is the Literal built by the unsigned terminal;
+    Literal's unary operators raise TypeError unless the Python value is int/float (xsd:decimal -> Decimal)."""
+    from vlib import h_c16 as H
+
+    RULE = "C16.o-signed-number-from-lexical-form"
+    rep.rule(RULE,
+             "the parse action of a signed numeric terminal of the SPARQL grammar (Suppress('-'|'+') + <number>) - shared by the TSV result reader - builds the literal "
+             "from the sign and the lexical form; it applies no unary operator (-x, +x, ~x, abs(x)) to the token, which is a Literal: Literal.__neg__/__pos__/__abs__/"
+             "__invert__ raise TypeError for every value that is not int/float, so the TSV cell -0.5 (xsd:decimal) cannot be read. No function of the grammar module "
+             "or of a result reader applies such an operator to a Literal-typed value", floor=4)
+    gm = repo.mod(GRAMMAR)
+    vals = H.module_values(gm)
+    signed = {}
+    for name, exprs in vals.items():
+        for e in exprs:
+            for c in ast.walk(e):
+                if isinstance(c, ast.Call) and norm(c.func).split(".")[-1] in ("Suppress", "Literal") and c.args and H.const_str(c.args[0]) in ("-", "+"):
+                    # a sign in front of a numeric terminal: the rest of the expression refers to a number terminal
+                    signed[name] = H.const_str(c.args[0])
+
+    def unary_uses(code: list) -> list:
+        out = []
+        for blk in code:
+            for n in ast.walk(blk):
+                if isinstance(n, ast.UnaryOp) and isinstance(n.op, (ast.USub, ast.UAdd, ast.Invert)) and not isinstance(n.operand, ast.Constant):
+                    out.append(n)
+                if isinstance(n, ast.Call) and norm(n.func) == "abs" and n.args and not isinstance(n.args[0], ast.Constant):
+                    out.append(n)
+        return out
+
+    numeric_signed = 0
+    for name, call in H.method_calls_on(gm, H.PARSE_ACTION):
+        if name not in signed or not call.args:
+            continue
+        # only terminals over numbers: the element refers to a terminal whose own action builds a Literal with an XSD numeric datatype
+        numeric_signed += 1
+        code = H.action_code(gm, call.args[0])
+        bad = unary_uses(code)
+        rep.ob(RULE, gm, "<module>", "%s (sign %r): %s" % (name, signed[name], norm(call.args[0])[:80]), not bad,
+               "built from the lexical form" if not bad else
+               "the action computes `%s` on the token: a Literal whose value is a Decimal (or an ill-formed lexical form) raises TypeError - the cell -0.5 of a TSV result cannot be read" % norm(bad[0])[:40],
+               node=bad[0] if bad else call)
+    if numeric_signed == 0:
+        raise AnalysisError("no signed numeric terminal with a parse action found in %s" % gm.rel)
+    # package part: no unary operator on a Literal-typed operand in the grammar module and the result readers
+    typed = repo.typed
+    for mod in [gm] + [repo.mod(RESULTS_PKG + s) for s in RESULT_READERS]:
+        for n in ast.walk(mod.tree):
+            opnd = None
+            if isinstance(n, ast.UnaryOp) and isinstance(n.op, (ast.USub, ast.UAdd, ast.Invert)):
+                opnd = n.operand
+            elif isinstance(n, ast.Call) and norm(n.func) == "abs" and n.args:
+                opnd = n.args[0]
+            if opnd is None:
+                continue
+            tf = typed.type_of(mod.name, opnd)
+            if tf is not None and any("rdflib.term.Literal" in typed.mro(i) for i in tf.items):
+                # (the terminals' actions above already report theirs)
+                if mod is gm and any(n is x for name, call in H.method_calls_on(gm, H.PARSE_ACTION) if name in signed and call.args
+                                     for blk in H.action_code(gm, call.args[0]) for x in ast.walk(blk)):
+                    continue
+                rep.ob(RULE, mod, mod.qual_of(n) or "<module>", n, False,
+                       "unary operator on %s : %s - raises TypeError unless the literal's Python value is int/float" % (norm(opnd), tf.text), node=n)
+
+
+# ---------------------------------------------------------------------------------------------------------------- (p)
+def rule_p_no_codecs_reader_under_line_consumer(repo: Repo, rep: Report) -> None:
+    """F78.  codecs.StreamReader.readline()/iteration splits with str.splitlines(): same hazard as rule f, hidden in the text layer."""
+    from vlib import h_c16 as H
+
+    RULE = "C16.p-no-codecs-reader-under-line-consumer"
+    rep.rule(RULE,
+             "in the record readers (TSV/CSV results, N-Triples/N-Quads) nothing that may be a codecs stream reader (codecs.getreader(enc)(src), codecs.open, "
+             "codecs.StreamReader, <CodecInfo>.streamreader) is consumed line-wise - .readline(), .readlines(), iteration, next(), csv.reader(src): StreamReader.readline "
+             "splits with str.splitlines(), i.e. also at VT, FF, FS/GS/RS, NEL, LS, PS, so the row '\"a\\u2028b\"' is cut in two (reading it with .read(n) is fine)", floor=3)
+    CODECS_CTORS = ("open", "StreamReader", "StreamReaderWriter", "EncodedFile")
+    for name in (RESULTS_PKG + "tsvresults", RESULTS_PKG + "csvresults", "rdflib.plugins.parsers.ntriples", "rdflib.plugins.parsers.nquads"):
+        mod = repo.mod(name)
+        imps = H.imports(mod)
+
+        def from_codecs(fn_expr: ast.expr, attrs: tuple) -> bool:
+            if isinstance(fn_expr, ast.Attribute) and fn_expr.attr in attrs and norm(fn_expr.value) == "codecs":
+                return True
+            return isinstance(fn_expr, ast.Name) and imps.get(fn_expr.id, ("", ""))[0] == "codecs" and imps[fn_expr.id][1] in attrs
+
+        def is_reader_ctor(e: ast.AST) -> bool:
+            if not isinstance(e, ast.Call):
+                return False
+            if isinstance(e.func, ast.Call) and from_codecs(e.func.func, ("getreader",)):
+                return True
+            if from_codecs(e.func, CODECS_CTORS):
+                return True
+            return isinstance(e.func, ast.Attribute) and e.func.attr == "streamreader"
+
+        # may-hold-a-codecs-reader: (function qualname, local name) and attribute texts `self.x` (module-wide)
+        tainted: set = set()
+        funcs = list(mod.functions())
+        for q, f in funcs:
+            for a in f.args.posonlyargs + f.args.args + f.args.kwonlyargs:
+                if a.annotation is not None and "StreamReader" in norm(a.annotation):
+                    tainted.add((q, a.arg))
+
+        def key(q: str, t: ast.AST):
+            if isinstance(t, ast.Name):
+                return (q, t.id)
+            if isinstance(t, ast.Attribute):
+                return ("<attr>", norm(t))
+            return None
+
+        def holds(q: str, e: ast.AST) -> bool:
+            if is_reader_ctor(e):
+                return True
+            if isinstance(e, ast.IfExp):
+                return holds(q, e.body) or holds(q, e.orelse)
+            if isinstance(e, ast.Call) and norm(e.func) in ("cast", "typing.cast") and len(e.args) == 2:
+                return holds(q, e.args[1])
+            k = key(q, e)
+            return k is not None and k in tainted
+
+        changed = True
+        while changed:
+            changed = False
+            for q, f in funcs:
+                for n in own_nodes(f):
+                    tg, val = [], None
+                    if isinstance(n, ast.Assign):
+                        tg, val = n.targets, n.value
+                    elif isinstance(n, (ast.AnnAssign, ast.NamedExpr)) and n.value is not None:
+                        tg, val = [n.target], n.value
+                    if val is None or not holds(q, val):
+                        continue
+                    for t in tg:
+                        k = key(q, t)
+                        if k is not None and k not in tainted:
+                            tainted.add(k)
+                            changed = True
+        for q, f in funcs:
+            cls = mod.defs.get(q.rsplit(".", 1)[0]) if "." in q else None
+            selfname = f.args.args[0].arg if f.args.args else None
+            for n in own_nodes(f):
+                src, how, always = None, "", False
+                if isinstance(n, ast.Call) and isinstance(n.func, ast.Attribute) and n.func.attr in ("readline", "readlines", "__next__", "__iter__"):
+                    if isinstance(n.func.value, ast.Name) and n.func.value.id == selfname and isinstance(cls, ast.ClassDef):
+                        continue  # a method of the reader class itself (own or inherited), not a file
+                    src, how, always = n.func.value, "." + n.func.attr + "()", n.func.attr.startswith("readline")
+                elif isinstance(n, ast.Call) and norm(n.func).split(".")[-1] in ("reader", "DictReader") and (norm(n.func).startswith("csv.") or imps.get(norm(n.func), ("", ""))[0] == "csv") and n.args:
+                    src, how, always = n.args[0], "csv.%s(...)" % norm(n.func).split(".")[-1], True
+                elif isinstance(n, ast.Call) and norm(n.func) in ("next", "iter", "list", "enumerate") and n.args:
+                    src, how = n.args[0], norm(n.func) + "(...)"
+                elif isinstance(n, (ast.For, ast.comprehension)):
+                    src, how = n.iter, "iteration"
+                if src is None:
+                    continue
+                bad = holds(q, src)
+                if not (bad or always):
+                    continue
+                rep.analysed("%s:%s" % (mod.rel, q))
+                rep.ob(RULE, mod, q, "%s of %s" % (how, norm(src)[:60]), not bad, "not a codecs stream reader" if not bad else
+                       "%s may be a codecs stream reader and is read line-wise: its readline() splits with str.splitlines(), a record containing U+000B, U+000C, U+001C-1E, U+0085, "
+                       "U+2028 or U+2029 inside a literal is cut there" % norm(src)[:40], node=n)
+
+
+# ---------------------------------------------------------------------------------------------------------------- (q)
+def rule_q_string_terminals_accept_what_is_decoded(repo: Repo, rep: Report) -> set:
+    """F79.  Terminal and decoder are siblings: the characters a string terminal accepts after a backslash are the keys of the decoder's table."""
+    from vlib import h_c16 as H
+
+    RULE = "C16.q-string-terminal-escapes-agree-with-decoder"
+    rep.rule(RULE,
+             "every SPARQL string terminal (a Regex whose parse action unescapes its text with rdflib.compat.decodeUnicodeEscape; the TSV result reader is built on "
+             "STRING_LITERAL1/2) accepts after a backslash exactly the characters of the decoder's escape table - ECHAR ::= '\\' [tbnrf\\\"'] whatever the quoting of "
+             "the string: the conformant TSV cell \"it\\'s\" must be read, and an escape the terminal accepts but the decoder does not know stays undecoded", floor=4)
+    gm = repo.mod(GRAMMAR)
+    # the decoder's table: the module-level dict with one-character keys indexed by the substitution function of decodeUnicodeEscape
+    res = H.resolve_function(repo, gm, "decodeUnicodeEscape")
+    if res is None:
+        raise AnalysisError("decodeUnicodeEscape is no longer imported by %s" % gm.rel)
+    dm, dfn = res
+    dvals = H.module_values(dm)
+    reach, work = set(), [dfn]
+    while work:
+        fn_ = work.pop()
+        for x in ast.walk(fn_):
+            if isinstance(x, ast.Name) and x.id not in reach:
+                reach.add(x.id)
+                if isinstance(dm.defs.get(x.id), ast.FunctionDef):
+                    work.append(dm.defs[x.id])
+    table = None
+    for nm in sorted(reach):
+        for v in dvals.get(nm, []):
+            if isinstance(v, ast.Dict) and v.keys and all(isinstance(k, ast.Constant) and isinstance(k.value, str) and len(k.value) == 1 for k in v.keys):
+                table = {k.value for k in v.keys}  # type: ignore[union-attr]
+    if not table:
+        raise AnalysisError("escape table of decodeUnicodeEscape not found in %s" % dm.rel)
+    vals = H.module_values(gm)
+    terminals = set()
+    for name, call in H.method_calls_on(gm, H.PARSE_ACTION):
+        if not call.args or not any(isinstance(c, ast.Call) and norm(c.func).split(".")[-1] == "decodeUnicodeEscape" for blk in H.action_code(gm, call.args[0]) for c in ast.walk(blk)):
+            continue
+        for v in vals.get(name, []):
+            if not (isinstance(v, ast.Call) and norm(v.func).split(".")[-1] == "Regex" and v.args):
+                continue
+            pat = H.const_str(v.args[0])
+            if pat is None:
+                raise AnalysisError("%s: the pattern of the string terminal is not a string constant" % name)
+            classes = H.escape_classes(pat, H.re_flags(v))
+            if not classes:
+                rep.ob(RULE, gm, "<module>", "%s = Regex(...)" % name, False, "the terminal accepts no escape at all, the decoder knows %s" % "".join(sorted(table)), node=v)
+                continue
+            terminals.add(name)
+            for cs in classes:
+                missing, extra = table - cs, cs - table
+                ok = not missing and not extra
+                rep.ob(RULE, gm, "<module>", "%s: after a backslash [%s]" % (name, "".join(sorted(cs)).replace("\\", "\\\\")), ok,
+                       "the decoder's table" if ok else
+                       ("the terminal does not accept the escape(s) %s that ECHAR and the decoder know: a string containing \\%s is a syntax error - a W3C-conformant TSV cell "
+                        "such as \"a\\%sb\" cannot be read" % (" ".join("\\" + c for c in sorted(missing)), sorted(missing)[0], sorted(missing)[0]) if missing else
+                        "the terminal accepts %s, which the decoder leaves undecoded" % " ".join("\\" + c for c in sorted(extra))), node=v)
+    if not terminals:
+        raise AnalysisError("no string terminal (Regex + decodeUnicodeEscape action) found in %s" % gm.rel)
+    return terminals
+
+
+# ---------------------------------------------------------------------------------------------------------------- (r)
+def rule_r_codepoint_escapes_expanded_before_grammar(repo: Repo, rep: Report, terminals: set) -> None:
+    """F80.  The string terminals do not know \\uXXXX / \\UXXXXXXXX (rule q: their escape class has no u/U): whoever hands text
+    to a grammar element that reaches them expands those escapes first - parseQuery/parseUpdate do, every other entry must too."""
+    from vlib import h_c16 as H
+    from vlib.cfg import CFG, reaching_defs
+
+    RULE = "C16.r-codepoint-escapes-expanded-before-grammar"
+    rep.rule(RULE,
+             "the SPARQL string terminals do not accept the codepoint escapes \\uXXXX and \\UXXXXXXXX; every <element>.parse_string(text) in the SPARQL package whose "
+             "element reaches a string terminal therefore gets text that has passed through a codepoint-escape expander (a function substituting chr(int(hex, 16)) for a "
+             "pattern with \\\\u) on every path - as parseQuery and parseUpdate do, so does the TSV result reader, or the conformant cell \"caf\\u00E9\" is a parse error", floor=3)
+    gm = repo.mod(GRAMMAR)
+    targets = {(gm.name, t) for t in terminals}
+    n_sites = 0
+    for mname, mod in sorted(repo.modules.items()):
+        if not mname.startswith("rdflib.plugins.sparql"):
+            continue
+        for q, f in mod.functions():
+            g = None
+            for c in own_nodes(f):
+                if not (isinstance(c, ast.Call) and isinstance(c.func, ast.Attribute) and c.func.attr in ("parse_string", "parseString") and isinstance(c.func.value, ast.Name) and c.args):
+                    continue
+                hit = H.grammar_reaches(repo, mod, c.func.value.id, targets)
+                if hit is None:
+                    continue
+                n_sites += 1
+                rep.analysed("%s:%s" % (mod.rel, q))
+
+                def expanded(e: ast.AST, depth: int = 0) -> bool:
+                    nonlocal g
+                    if isinstance(e, ast.Call) and isinstance(e.func, ast.Name):
+                        r = H.resolve_function(repo, mod, e.func.id)
+                        if r is not None and H.is_codepoint_expander(repo, r[0], r[1]):
+                            return True
+                    # text operations that keep an expanded text expanded
+                    if isinstance(e, ast.Call) and isinstance(e.func, ast.Attribute) and e.func.attr in ("strip", "rstrip", "lstrip") :
+                        return expanded(e.func.value, depth)
+                    if isinstance(e, ast.Name) and depth < 4:
+                        if g is None:
+                            g = CFG(f)
+                        at = g.node_of(c, mod)
+                        defs = reaching_defs(g, at, e.id)
+                        if not defs or g.entry in defs:
+                            return False
+                        for d in defs:
+                            st = g.nodes[d].ast
+                            if not (isinstance(st, ast.Assign) and len(st.targets) == 1 and isinstance(st.targets[0], ast.Name) and st.targets[0].id == e.id):
+                                return False
+                            v = st.value
+                            if isinstance(v, ast.Name):
+                                return False
+                            if not expanded(v, depth + 1):
+                                return False
+                        return True
+                    return False
+
+                ok = expanded(c.args[0])
+                rep.ob(RULE, mod, q, c, ok, "the text is expanded first (the element reaches %s)" % hit[1] if ok else
+                       "%s reaches the string terminal %s, which does not know \\u / \\U, and the text handed to it has not passed through a codepoint-escape expander: "
+                       "\"\\u00E9\" in it is a syntax error" % (c.func.value.id, hit[1]), node=c)
+    if n_sites == 0:
+        raise AnalysisError("no parse_string call on a grammar element that reaches a string terminal")
+
+
+# ---------------------------------------------------------------------------------------------------------------- (s)
+def rule_s_iri_presence_by_identity(repo: Repo, rep: Report) -> None:
+    """F81.  <> (the empty relative IRI) is a falsy URIRef / an element without text: presence of an IRI is decided by identity."""
+    from vlib import h_c16 as H
+
+    RULE = "C16.s-iri-presence-by-identity"
+    rep.rule(RULE,
+             "in the result readers and writers (1) an Optional[URIRef] (a literal's datatype) is tested `is None`, never for truth - URIRef('') is falsy; (2) whatever "
+             "is handed to URIRef(...) cannot be None there (an Optional value is defaulted, `text or ''`, or guarded), and where the guard is a test of the very "
+             "expression it is `is not None`, not truthiness: <uri></uri> has text None and is the IRI <>, datatype=\"\" is a datatype", floor=5)
+    typed = repo.typed
+    for short in RESULT_READERS + ("txtresults",):
+        mod = repo.mod(RESULTS_PKG + short)
+        for q, f in mod.functions():
+            if "." in q and isinstance(mod.defs.get(q.rsplit(".", 1)[0]), ast.FunctionDef):
+                continue  # nested defs are walked with their parent
+
+            def is_opt_iri(e: ast.AST) -> bool:
+                tf = typed.type_of(mod.name, e)
+                return tf is not None and tf.optional and any("rdflib.term.URIRef" in typed.mro(i) for i in tf.items) \
+                    and not any("rdflib.term.Literal" in typed.mro(i) or i in truthy.SUPER_OF_LITERAL for i in tf.items)  # those are rule c's
+
+            # (1)
+            for n in own_nodes(f, include_nested=True):
+                if isinstance(n, ast.Compare) and len(n.ops) == 1 and isinstance(n.ops[0], (ast.Is, ast.IsNot, ast.Eq, ast.NotEq)):
+                    sides = [n.left, n.comparators[0]]
+                    if any(isinstance(x, ast.Constant) and x.value is None for x in sides):
+                        for x in sides:
+                            if not isinstance(x, ast.Constant) and is_opt_iri(x):
+                                rep.ob(RULE, mod, q, n, True, "presence of the IRI %s decided by identity" % norm(x), node=n)
+            for e, owner, kind in truthy.bool_contexts(f):
+                if isinstance(e, (ast.Compare, ast.Constant)):
+                    continue
+                if is_opt_iri(e):
+                    rep.ob(RULE, mod, q, "%s [in %s: %s]" % (norm(e), kind, norm(getattr(owner, "test", owner))[:100]), False,
+                           "truthiness of %s : %s conflates `no IRI` with the empty IRI <>: a literal typed with it loses its datatype" % (norm(e), typed.type_of(mod.name, e)), node=e)
+            # (2)
+            if short == "txtresults":
+                continue
+            for c in own_nodes(f, include_nested=True):
+                if not (isinstance(c, ast.Call) and norm(c.func).split(".")[-1] == "URIRef" and c.args):
+                    continue
+                a = c.args[0]
+                tf = typed.type_of(mod.name, a)
+                rep.analysed("%s:%s" % (mod.rel, q))
+                want = H.strip_none_default(a)
+
+                def same(e: ast.AST) -> bool:
+                    """e denotes the value handed to URIRef: the same expression, or the walrus that binds the name"""
+                    if isinstance(e, ast.NamedExpr):
+                        return (isinstance(a, ast.Name) and isinstance(e.target, ast.Name) and e.target.id == a.id) or same(e.value)
+                    return H.strip_none_default(e) == want
+
+                def may_be_none(e: ast.AST) -> bool:
+                    t_ = typed.type_of(mod.name, e.value if isinstance(e, ast.NamedExpr) else e)
+                    return t_ is None or t_.optional or (t_.any and not t_.items)
+
+                ident, truth = [], []
+                child = c
+                for p in mod.parents(c):
+                    if p is f:
+                        break
+                    if isinstance(p, ast.If) and any(child is s for s in p.body):
+                        for leaf in _and_leaves(p.test):
+                            if isinstance(leaf, ast.Compare) and len(leaf.ops) == 1 and isinstance(leaf.ops[0], (ast.IsNot, ast.NotEq)) and isinstance(leaf.comparators[0], ast.Constant) \
+                                    and leaf.comparators[0].value is None and same(leaf.left):
+                                ident.append(leaf)
+                            elif not isinstance(leaf, ast.Compare) and same(leaf) and may_be_none(leaf):
+                                truth.append(leaf)
+                    child = p
+                if truth:
+                    ok, why = False, "the IRI is built only if `%s` is true: an empty value (the IRI <>, datatype=\"\") is treated as absent" % norm(truth[0])[:60]
+                elif tf is None or not tf.optional:
+                    ok, why = True, "the argument %s cannot be None" % (tf.text if tf else "(untyped)")
+                elif ident:
+                    ok, why = True, "guarded by `%s`" % norm(ident[0])
+                else:
+                    ok, why = False, "%s : %s may be None here (an element without text): URIRef(None) is not the empty IRI" % (norm(a)[:40], tf.text)
+                rep.ob(RULE, mod, q, c, ok, why, node=c)
+
+
+def _and_leaves(test: ast.expr):
+    """conjuncts of a test that hold on its true branch"""
+    if isinstance(test, ast.BoolOp) and isinstance(test.op, ast.And):
+        for v in test.values:
+            yield from _and_leaves(v)
+    else:
+        yield test
+
+
+# ---------------------------------------------------------------------------------------------------------------- (t)
+def rule_t_csv_marker_stripped(repo: Repo, rep: Report) -> None:
+    """F82.  A marker the CSV writer puts in front of a term's text is syntax: the reader arm that recognises it strips it."""
+    from vlib import h_c16 as H
+
+    RULE = "C16.t-csv-marker-stripped-by-reader"
+    rep.rule(RULE,
+             "for every term class that CSVResultSerializer.serializeTerm writes as <constant marker> + text (blank nodes: '_:' + label), CSVResultParser.convertTerm has "
+             "an arm `<cell>.startswith(<marker>)` that builds that class from the cell WITHOUT the marker (cell[len(marker):] / removeprefix): built from the whole cell, "
+             "BNode('b1') comes back as BNode('_:b1') and grows another '_:' on each round trip", floor=1)
+    mod = repo.mod(RESULTS_PKG + "csvresults")
+    w = mod.func("CSVResultSerializer.serializeTerm")
+    r = mod.func("CSVResultParser.convertTerm")
+    rep.analysed("%s:CSVResultSerializer.serializeTerm" % mod.rel, "%s:CSVResultParser.convertTerm" % mod.rel)
+    tv = w.args.args[1].arg
+    markers = {}
+    for cls, body in _isinstance_arms(w, tv):
+        for s in body:
+            for x in ast.walk(s):
+                if not isinstance(x, ast.Return) or x.value is None:
+                    continue
+                v = x.value
+                m = None
+                if isinstance(v, ast.JoinedStr) and len(v.values) >= 2 and H.const_str(v.values[0]) and tv in H.names_in(v):
+                    m = H.const_str(v.values[0])
+                elif isinstance(v, ast.BinOp) and isinstance(v.op, ast.Add) and H.const_str(v.left) and tv in H.names_in(v.right):
+                    m = H.const_str(v.left)
+                elif isinstance(v, ast.BinOp) and isinstance(v.op, ast.Mod) and H.const_str(v.left) and "%" in H.const_str(v.left) and tv in H.names_in(v.right):
+                    m = H.const_str(v.left).split("%", 1)[0] or None
+                if m:
+                    markers[cls] = m
+    if not markers:
+        raise AnalysisError("serializeTerm: no term class is written with a constant marker (blank nodes were written as '_:' + label)")
+    cell = r.args.args[1].arg
+    for cls, m in sorted(markers.items()):
+        arms = [n for n in ast.walk(r) if isinstance(n, ast.If) and any(
+            isinstance(c, ast.Call) and isinstance(c.func, ast.Attribute) and c.func.attr == "startswith" and norm(c.func.value) == cell and c.args and H.const_str(c.args[0]) == m
+            for c in ast.walk(n.test))]
+        if not arms:
+            rep.ob(RULE, mod, "CSVResultParser.convertTerm", "%s written as %r + text" % (cls, m), False, "convertTerm has no arm for cells starting with %r: the term is read as a Literal" % m, node=r)
+            continue
+        for arm in arms:
+            ctors = [c for s in arm.body for c in ast.walk(s) if isinstance(c, ast.Call) and norm(c.func).split(".")[-1] == cls]
+            ok = bool(ctors)
+            why = "no %s is built in the arm" % cls
+            for c in ctors:
+                a = c.args[0] if c.args else None
+                stripped = False
+                if isinstance(a, ast.Subscript) and norm(a.value) == cell and isinstance(a.slice, ast.Slice) and a.slice.upper is None and a.slice.step is None and a.slice.lower is not None:
+                    lo = a.slice.lower
+                    stripped = (isinstance(lo, ast.Constant) and lo.value == len(m)) or (
+                        isinstance(lo, ast.Call) and norm(lo.func) == "len" and lo.args and H.const_str(lo.args[0]) == m)
+                elif isinstance(a, ast.Call) and isinstance(a.func, ast.Attribute) and a.func.attr == "removeprefix" and norm(a.func.value) == cell and a.args and H.const_str(a.args[0]) == m:
+                    stripped = True
+                elif isinstance(a, ast.Call) and isinstance(a.func, ast.Attribute) and a.func.attr in ("split", "partition") and norm(a.func.value) == cell:
+                    stripped = False
+                if not stripped:
+                    ok = False
+                    why = "%s is built from `%s`, which still carries the marker %r: BNode('b1') -> '_:b1' -> BNode('_:b1')" % (cls, norm(a) if a is not None else "", m)
+            rep.ob(RULE, mod, "CSVResultParser.convertTerm", "%s written as %r + text, read by %s" % (cls, m, norm(ctors[0]) if ctors else "?"), ok,
+                   "the marker is stripped" if ok else why, node=ctors[0] if ctors else arm)
